@@ -31,7 +31,7 @@ def make_script(eng, kinds, k, who, forced=None):
             d['foreign'] = eng.int('foreign', 0, 65535)
             d['g'] = eng.int('g', 0, 255)
         elif kind == 'advance':
-            d['dt'] = eng.real('dt', 0, 60)
+            d['dt'] = eng.real('dt', 0, 12 if who == 'A12' else 60)
         elif kind == 'reconnect':
             d['clean'] = eng.bool('clean')
         out.append(d)
@@ -58,7 +58,7 @@ def do_step(eng, side, d, who):
     if kind == 'reconnect':
         if not c.lost:
             flow.lose(c=c)
-        flow.keepalive = 0
+        flow.keepalive = getattr(side, 'keepalive', 0)
         side.c = flow.open(ai=side.ai, clean=d['clean'])
         side.c.p.setWindowSize(2)
         side.c.window = 2
@@ -204,12 +204,17 @@ def h_two(eng, params):
     def run(joint):
         flow = Flow(eng, 'pubsubs', naddr=2, clean=True)
         flow.w.env.jitter_pool = list(jit)
+        ka, kb = params.get('keepalive', (0, 0))
         A = Side(flow, 0, False)
+        A.keepalive = ka
+        flow.keepalive = ka
         A.c = flow.open(ai=0, clean=True)
         A.c.p.setWindowSize(2)
         A.c.window = 2
         B = Side(flow, 1, b_persistent)
+        B.keepalive = kb
         if joint:
+            flow.keepalive = kb
             B.c = flow.open(ai=1, clean=not b_persistent)
             B.c.p.setWindowSize(2)
             B.c.window = 2
@@ -225,7 +230,7 @@ def h_two(eng, params):
                     bi += 1
             if i < len(a_script):
                 do_step(eng, A, a_script[i], 'A')
-        flow.advance(200)
+        flow.advance(params.get('tail', 200))
         a_conns = [c for c in flow.w.conns if c.ai == 0]
         proj = projection(eng, flow, a_conns, A.reqs)
         if joint:
@@ -266,6 +271,9 @@ def shards(tier):
             for b1 in B_KINDS:
                 for b2 in B_KINDS:
                     out.append(('two', {'ka': 3 if T else 2, 'kb': 3 if T else 2, 'b_persistent': bp, 'afirst': (a1,), 'bfirst': (b1, b2)}))
+        # both addresses with keepalive running: A publishes and lets time pass while B connects, is lost or reconnects
+        for b1 in ('publish', 'loss', 'reconnect'):
+            out.append(('two', {'ka': 1, 'kb': 1, 'b_persistent': bp, 'afirst': ('advance',), 'bfirst': (b1,), 'keepalive': (5, 7), 'tail': 12}))
     return out
 
 
@@ -274,7 +282,7 @@ META = {
             'identifiers either of the own j-th outstanding request or symbolic and foreign to the receiving protocol - possibly an identifier of the other protocol, '
             'inbound identifiers, time), every interleaving position of B among A; the same A script is then run alone on a fresh factory and A\'s observation logs '
             '(identifiers renamed to request ordinals) are compared',
-    'bounds': {'quick': 'A: publish, subscribe + 2 free steps; B: publish + 2 free steps; B includes loss and clean/persistent reconnect; window 2 on both', 'thorough': '3 free steps each'},
+    'bounds': {'quick': 'A: publish, subscribe + 2 free steps; B: publish + 2 free steps; keepalive off, or 5 s on A and 7 s on B; B includes loss and clean/persistent reconnect; window 2 on both', 'thorough': '3 free steps each'},
     'stubs': ['fake transports', 'one twisted task.Clock', 'jitter: the constant 1/2 (so that timers of A are due at the same instants in both runs)'],
     'outside': ['more than two addresses', 'jitter values other than a constant', 'histories longer than kA+kB steps'],
     'assumptions': ['acknowledgement types fit the exchange they address'],
